@@ -767,12 +767,53 @@ class Index:
                     out.append({"cond": "some(%s)" % r, "raw": "none(%s)" % r, "kind": "ok_or", "node": x,
                                 "errs": self.error_of(inner["args"][0])})
                     continue
+                g_ = self._try_of_if(inner)
+                if g_:
+                    out.extend(g_)
+                    continue
                 out.append({"cond": "ok " + self.canon(x["e"]), "kind": "try", "node": x, "errs": []})
                 out.extend(self._imported(x))
         # assert!(cond) style
         if e0.get("mac", "").split(">")[0] in ("assert", "assert_eq", "assert_ne", "debug_assert", "debug_assert_eq"):
             pass
         return out
+
+    def _try_of_if(self, inner):
+        """`(if c { Ok(()) } else { Err(E) })?`  ==  `if !c { return Err(E) }` — the shape an inlined `ensure(c, E)?` helper has:
+        optionally inside a block whose statements only bind the (non-place) arguments: `{ let c = ..; let e = ..; if c {Ok(())} else {Err(e)} }?`"""
+        env = {}
+        tail = inner
+        if inner.get("k") == "Block" and inner.get("stmts") and inner.get("expr") is not None:
+            for s_ in inner["stmts"]:
+                if not (s_.get("k") == "LetStmt" and s_["pat"].get("k") == "Bind" and not s_["pat"].get("mut") and s_.get("init") is not None
+                        and s_.get("els") is None and "lid" in s_["pat"]):
+                    return None
+                env[s_["pat"]["lid"]] = s_["init"]
+            tail = peel(inner["expr"])
+        if not (tail.get("k") == "If" and tail.get("else") is not None):
+            return None
+
+        def sub(n):
+            n = peel(n)
+            return peel(env[n["lid"]]) if n.get("k") == "Local" and n.get("lid") in env else n
+
+        def res(b, which):
+            b = peel(b)
+            return b.get("k") == "Call" and (H.callee(b) or "").endswith("Result::" + which) and len(b.get("args") or ()) == 1
+        c, t, el = sub(tail["cond"]), peel(tail["then"]), peel(tail["else"])
+        # the condition must not mention another of the block's own bindings (it is evaluated first)
+        if any(x.get("k") == "Local" and x.get("lid") in env for x, _ in H.walk(c)):
+            return None
+        out = []
+        if res(t, "Ok") and res(el, "Err"):
+            for cc in self.split_and(c):
+                out.append({"cond": self.cond(cc), "kind": "guard-else", "node": tail, "errs": self.error_of(sub(el["args"][0])),
+                            "raw": self.neg(cc), "expr": cc, "pos": True})
+        elif res(t, "Err") and res(el, "Ok"):
+            for cc in self.split_or(c):
+                out.append({"cond": self.neg(cc), "kind": "guard", "node": tail, "errs": self.error_of(sub(t["args"][0])),
+                            "raw": self.canon(cc), "expr": cc, "pos": False})
+        return out or None
 
     def _match_exits(self, m, leaves):
         """arms of `m` that leave (per predicate `leaves`): one guard each; what holds afterwards is the complement
